@@ -114,13 +114,20 @@ func termArg(ex *absint.Exec, c *absint.CallCtx, i int) *sym.Term {
 	return c.St.Simplify(t)
 }
 
-// loadAbs loads the abstract value behind a pointer argument.
+// loadAbs loads the abstract value behind a pointer argument (a merged pointer yields an ite-term).
 func loadAbs(ex *absint.Exec, c *absint.CallCtx, i int, srt sym.Sort) *sym.Term {
-	p := ptrArg(ex, c, i)
-	if p == nil {
-		return sym.Fresh(srt, "bad", 0)
+	return loadAbsVal(ex, c, c.St.Resolve(c.Args[i]), i, srt)
+}
+
+func loadAbsVal(ex *absint.Exec, c *absint.CallCtx, v absint.Val, i int, srt sym.Sort) *sym.Term {
+	switch x := v.(type) {
+	case *absint.Ptr:
+		return loadAbsPtr(ex, c, x, srt)
+	case *absint.Choice:
+		return sym.Ite(x.Cond, loadAbsVal(ex, c, c.St.Resolve(x.A), i, srt), loadAbsVal(ex, c, c.St.Resolve(x.B), i, srt))
 	}
-	return loadAbsPtr(ex, c, p, srt)
+	ex.Failf("%s: argument %d is not a pointer: %s", c.Name, i, absint.ValString(v))
+	return sym.Fresh(srt, "bad", 0)
 }
 
 func loadAbsPtr(ex *absint.Exec, c *absint.CallCtx, p *absint.Ptr, srt sym.Sort) *sym.Term {
@@ -133,13 +140,41 @@ func loadAbsPtr(ex *absint.Exec, c *absint.CallCtx, p *absint.Ptr, srt sym.Sort)
 	return t
 }
 
+// storeAbs stores t behind pointer argument i (through a merged pointer: a conditional update of every alternative).
 func storeAbs(ex *absint.Exec, c *absint.CallCtx, i int, t *sym.Term) absint.Val {
-	p := ptrArg(ex, c, i)
-	if p == nil {
-		return nil
+	v := c.St.Resolve(c.Args[i])
+	storeAbsVal(ex, c, v, t, nil)
+	if _, ok := v.(*absint.Ptr); !ok {
+		if _, isC := v.(*absint.Choice); !isC {
+			ex.Failf("%s: argument %d is not a pointer: %s", c.Name, i, absint.ValString(v))
+			return nil
+		}
 	}
-	ex.StoreLeaf(c.St, p, t, c.Pos)
-	return p
+	return v
+}
+
+func storeAbsVal(ex *absint.Exec, c *absint.CallCtx, v absint.Val, t *sym.Term, cond *sym.Term) {
+	switch x := v.(type) {
+	case *absint.Ptr:
+		nv := t
+		if cond != nil {
+			old, _ := c.St.Resolve(ex.LoadLeaf(c.St, x)).(*sym.Term)
+			if old == nil {
+				old = sym.Fresh(t.Sort, "old", 0)
+			}
+			nv = sym.Ite(cond, t, old)
+		}
+		ex.StoreLeaf(c.St, x, nv, c.Pos)
+	case *absint.Choice:
+		and := func(a, b *sym.Term) *sym.Term {
+			if a == nil {
+				return b
+			}
+			return sym.Ite(a, b, sym.ConstBool(false))
+		}
+		storeAbsVal(ex, c, c.St.Resolve(x.A), t, and(cond, x.Cond))
+		storeAbsVal(ex, c, c.St.Resolve(x.B), t, and(cond, sym.Not(x.Cond)))
+	}
 }
 
 func boolOf(t *sym.Term) *sym.Term { return absint.AsBool(t) }
